@@ -22,7 +22,8 @@ WIRE_ASSUME = [
     "bzip2 and AES-GCM are opaque layers (round trip and framing only)",
 ]
 
-MODELS = {"wire": ("WireMC.tla", "WireMC_%s.cfg"), "evo": ("Evo.tla", "Evo_%s.cfg"), "mut": ("MutMC.tla", "MutMC_%s.cfg")}
+MODELS = {"wire": ("WireMC.tla", "WireMC_%s.cfg"), "evo": ("Evo.tla", "Evo_%s.cfg"), "mut": ("MutMC.tla", "MutMC_%s.cfg"),
+          "gate": ("GateMC.tla", "GateMC_%s.cfg")}
 _tlc_cache = {}
 
 def model_records(model, tier, fresh):
@@ -533,3 +534,123 @@ def c07(p, tier, replay):
         "cut of MutMC is run on the real reader and validated by MutTrace; in addition every strict prefix of the real plain, schema-less, "
         "bzip2 and encrypted files of a sample of the wire catalogue is loaded: error, or (bzip2 trailer only) the equal value",
         extra=None if replay else _c07_prefixes(tier))
+
+# ------------------------------------------------------------------------------------------------
+# C13 schema persistence / comparison,  C11 by-reference rule (schema part)
+# ------------------------------------------------------------------------------------------------
+def schema_pipeline(tier, replay):
+    binp = vlib.cargo_build("schema")
+    recs = os.path.join(WORK, "schema_%s.ndjson" % tier)
+    if replay:
+        open(recs, "w").write(json.dumps(json.load(open(replay))["record"]) + "\n")
+        stats = {"generated": 0, "distinct": 0}
+    else:
+        r = vlib.run_tlc("SchemaMC.tla", "SchemaMC_%s.cfg" % tier, "schemamc_" + tier, workers=8,
+                         timeout=6000 if tier == "thorough" else 1500)
+        if r["violated"]:
+            raise ToolError("SchemaMC: TLC reports a violation in the specification itself (see %s)" % r["out"])
+        stats = r["stats"]
+        if vlib.printed_json(r["out"], recs) == 0:
+            raise ToolError("SchemaMC produced no behaviours")
+    res = recs + ".res"
+    vlib.run_bin(binp, ["replay", recs, res])
+    return stats, recs, res
+
+def schema_check(prop_id, tier, replay, prefix, text, assumptions):
+    v = Verdict(prop_id, tier)
+    stats, recs, res = schema_pipeline(tier, replay)
+    records = open(recs).read().splitlines()
+    n, pairs, samples = 0, 0, []
+    for line in open(res):
+        rr = json.loads(line)
+        rec = json.loads(records[rr["i"]])
+        n += 1
+        pairs += len(rec["pairs"])
+        if len(samples) < 2 and rec["s"]["k"] in ("struct", "enum") and len(rec["pairs"]) > 3:
+            samples.append({"schema": rec["s"], "format2_bytes": rec["e2"], "format0_bytes": rec["e0"],
+                            "partners": [{"kind": p["kind"], "diff": p["diff"], "layout_compatible": p["lc"], "same_layout": p["sl"]} for p in rec["pairs"][:4]]})
+        for f in rr["fails"]:
+            if f["check"].startswith("tool."):
+                raise ToolError("harness: %s %s" % (f["check"], f["detail"]))
+            if f["check"].startswith(prefix):
+                v.report(f["check"], {"t": None, "s": rec["s"]}, f["detail"], rec)
+    cov = {"states": stats["distinct"], "transitions": stats["generated"], "traces_validated_against_impl": n,
+           "evaluations": n + pairs, "distinct_nontrivial": pairs,
+           "rule": "one behaviour per schema tree of the universe (all trees up to the size bound over the leaf / name / annotation alphabets); "
+                   "non-trivial = (schema, partner) pairs, the partner being the schema itself, a single wire-altering mutant or a single layout-annotation mutant",
+           "schemas": n, "samples": samples, "exhaustive": not replay, "explanation": text}
+    return v.finish("model_checking", cov, assumptions)
+
+@prop("C13")
+def c13(p, tier, replay):
+    return schema_check(p, tier, replay, "c13.",
+        "TLC enumerates every schema tree of the universe and proves on the transcribed section format: SDec(SEnc(s,v),v)=s for v in {1,2}, "
+        "SDec(SEnc(s,0),0)=StripLayout(s), Diff(s,s) reports nothing, every single wire-altering mutant is reported in both directions and "
+        "layout-annotation mutants are not; replay: real Schema::serialize bytes = SEnc byte for byte at formats 1 and 2, real "
+        "Schema::deserialize of the specification's bytes (formats 0, 1, 2) gives the expected tree, real diff_schema verdict = Diff on every pair",
+        ["bounded universe of schema trees (spec/SchemaMC.tla Universe); trait / closure / future schemas are covered by the ABI models, not here",
+         "the format-0 writer no longer exists: format-0 bytes are produced by the specification from the reader's documented gates"])
+
+
+# ------------------------------------------------------------------------------------------------
+# C05: schema and header gate
+# ------------------------------------------------------------------------------------------------
+@prop("C05")
+def c05(p, tier, replay):
+    v = Verdict(p, tier)
+    built, binp = family_build(tier, ["gate"])
+    recs, stats = built["gate"]
+    # ---- pairs
+    res = recs + ".res"
+    vlib.run_bin_resilient(binp, ["pairs"], recs, res, "c05.pair.died")
+    records = {}
+    for line in open(recs):
+        r = json.loads(line)
+        records[r["ia"]] = r
+    npairs, classes = 0, collections.Counter()
+    for r in records.values():
+        classes.update(r["classes"])
+        npairs += 2 * len(r["classes"])
+    for line in open(res):
+        rr = json.loads(line)
+        ra = records.get(rr["i"])
+        for f in rr["fails"]:
+            if f["check"].startswith("tool."):
+                raise ToolError("harness: %s %s" % (f["check"], f["detail"]))
+            rb = records.get(f.get("ib"), {"t": ra["t"]})
+            v.report(f["check"], {"t": ra["t"], "tb": rb["t"]},
+                     "saved as %s, loaded as %s :: %s" % (vlib.show(ra["t"]), vlib.show(rb["t"]), f["detail"][:200]),
+                     {"saved": ra["t"], "loaded": rb["t"], "value": ra["v"]})
+    # ---- header gate
+    r = vlib.run_tlc("Container.tla", "Container.cfg", "container", workers=4, timeout=600)
+    if r["violated"]:
+        raise ToolError("Container: TLC reports a violation in the specification itself (see %s)" % r["out"])
+    hrecs = os.path.join(WORK, "container.ndjson")
+    nh = vlib.printed_json(r["out"], hrecs)
+    hres = hrecs + ".res"
+    vlib.run_bin(binp, ["headers", hrecs, hres])
+    hrecords = open(hrecs).read().splitlines()
+    for line in open(hres):
+        rr = json.loads(line)
+        for f in rr["fails"]:
+            rec = json.loads(hrecords[rr["i"]])
+            v.report(f["check"], {"t": None}, "%s :: %s" % (json.dumps(rec["file"]), f["detail"]), rec)
+    samples = [{"saved": vlib.show(records[1]["t"]), "value": records[1]["v"],
+                "loaded_as": [{"type": vlib.show(records[j + 1]["t"]), "class": c} for j, c in enumerate(records[1]["classes"][:6])]}]
+    cov = {"states": (stats["distinct"] if stats else 0) + r["stats"]["distinct"],
+           "transitions": (stats["generated"] if stats else 0) + r["stats"]["generated"],
+           "traces_validated_against_impl": npairs + nh, "evaluations": npairs + nh,
+           "distinct_nontrivial": sum(n for c, n in classes.items() if c != "accept"),
+           "rule": "every ordered pair (type saved, type loaded) of the gate catalogue, classified by GateMC.tla as accept (same wire-relevant schema tree), "
+                   "reject (different byte-level layout) or dontcare (same bytes, different grouping), replayed through the plain and the bzip2 container; "
+                   "plus every behaviour of the header state machine Container.tla; non-trivial = pairs that are not 'accept'",
+           "pair_classes": dict(classes), "samples": samples, "exhaustive": True,
+           "explanation": "TLC proves GateFirst on the load_impl state machine (nothing is interpreted before magic, library version, data version and "
+                          "schema comparison have passed) and, on the schemas of the gate catalogue, that the comparison accepts only byte-compatible "
+                          "layouts (GateSound) and accepts identical trees (GateComplete); replay: real load::<Tb>(save::<Ta>(v)) must be Ok for 'accept', "
+                          "Err(IncompatibleSchema) for 'reject', and must never panic; corrupted headers on real files give the model's error class "
+                          "without the payload having been read"}
+    return v.finish("model_checking", cov, WIRE_ASSUME + [
+        "three-valued oracle: pairs that differ only by transparent grouping (1-field struct vs its field, array vs repeated fields, tuple nesting) "
+        "are 'dontcare' - the property's two sentences do not decide them; they are only checked for absence of panics",
+        "library format versions 0 and 1 are not produced by the current writer; their schema sections are covered by C13"])
